@@ -141,7 +141,7 @@ class Prov:
                     return e[2] if not rest else ("partial", rest, e[2])
                 return ("unknown", "partial-other-field")
             if self.is_closure_like and e == ("param", 1, "env"):
-                return ("upvar", name)
+                return ("upvar", name[6:] if name.startswith("_ref__") else name)
             return ("field", e, name)
         if p[0] == "d":
             if k == "agg" and e[1].endswith("::" + p[1]):
@@ -554,14 +554,16 @@ def describe_path(body, blocks, limit=14):
 
 # ---------------------------------------------------------------------------------- path engine
 
-def propagate(body, init, transfer, start=0, max_states=20000, edge_filter=None):
-    """forward propagation of sets of abstract states.
+def propagate(body, init, transfer, start=0, max_states=40000, edge_filter=None):
+    """forward propagation of sets of abstract states (breadth first, so witnesses are shortest).
     transfer(block_idx, state) -> iterable of (succ_block | None, new_state). `None` as successor
-    means the path ends (return); those states are collected and returned as exits.
-    Returns (states_in: dict block -> set(states), exits: list of (block, state))."""
+    means the path ends (return); those states are collected as exits.
+    Returns (states_in: dict block -> set(states), exits: list of (block, state), parent map)."""
     states_in = defaultdict(set)
     states_in[start].add(init)
     work = deque([(start, init)])
+    parent = {(start, init): None}
+    allpreds = defaultdict(set)
     exits = []
     n = 0
     while work:
@@ -572,14 +574,96 @@ def propagate(body, init, transfer, start=0, max_states=20000, edge_filter=None)
                                % (body.path, max_states))
         for succ, ns in transfer(b, st):
             if succ is None:
-                exits.append((b, ns))
+                exits.append((b, st, ns))
                 continue
             if edge_filter is not None and not edge_filter(b, succ):
                 continue
+            allpreds[(succ, ns)].add((b, st))
             if ns not in states_in[succ]:
                 states_in[succ].add(ns)
+                parent[(succ, ns)] = (b, st)
                 work.append((succ, ns))
-    return states_in, exits
+    parent["__allpreds__"] = allpreds
+    return states_in, exits, parent
+
+
+def witness(parent, node):
+    """block path from the start to `node` = (block, state)"""
+    out = []
+    while node is not None:
+        out.append(node)
+        node = parent.get(node)
+    out.reverse()
+    return out
+
+
+def edge_label(body, prov, blk, succ):
+    """line-free description of the decision taken on edge blk->succ (None if not a decision)"""
+    t = body.blocks[blk].term
+    if t.k != "switch":
+        return None
+    e = prov.operand(t.discr)
+    vals = [v for v, tb in t.vals if tb == succ]
+    if e[0] == "discr":
+        inner = e[1]
+        what = fmt_short(inner)
+        if vals:
+            lab = variant_label(inner, vals[0], body, blk)
+        else:
+            others = [v for v, _ in t.vals]
+            lab = "not(%s)" % ",".join(variant_label(inner, v, body, blk) for v in others)
+        return "%s is %s" % (what, lab)
+    lab = "true" if (not vals or vals[0] != 0) else "false"
+    if vals and e[0] not in ("call", "bin", "un"):
+        lab = str(vals[0])
+    return "%s = %s" % (fmt_short(e), lab)
+
+
+def variant_label(inner, v, body, blk):
+    # try to name the variant from the type of the inspected place
+    names, pl = Guards(body).variant_names(blk)
+    if v in names:
+        return names[v]
+    return "#%d" % v
+
+
+def fmt_short(e, depth=0):
+    """compact, line-free rendering used in violation keys: callee last segments and field paths"""
+    k = e[0]
+    if depth > 6:
+        return "…"
+    if k == "call":
+        n = short(e[1]).split("::")
+        name = "::".join(n[-2:]) if len(n) >= 2 else n[-1]
+        ix = transparent_args(e[1])
+        if ix == [0] and e[2]:
+            return fmt_short(e[2][0], depth)
+        return "%s(%s)" % (name, ", ".join(fmt_short(a, depth + 1) for a in e[2]))
+    if k == "param":
+        return e[2]
+    if k == "upvar":
+        return e[1]
+    if k == "field":
+        return "%s.%s" % (fmt_short(e[1], depth), e[2])
+    if k == "as":
+        return fmt_short(e[1], depth)
+    if k == "index":
+        return "%s[]" % fmt_short(e[1], depth)
+    if k == "const":
+        return str(e[1])
+    if k == "bin":
+        return "%s(%s, %s)" % (e[1], fmt_short(e[2], depth + 1), fmt_short(e[3], depth + 1))
+    if k == "un":
+        return "%s(%s)" % (e[1], fmt_short(e[2], depth + 1))
+    if k == "cast":
+        return fmt_short(e[1], depth)
+    if k == "discr":
+        return "discr(%s)" % fmt_short(e[1], depth + 1)
+    if k == "phi":
+        return "φ(%s)" % "|".join(sorted(set(fmt_short(x, depth + 1) for x in e[1])))
+    if k == "agg":
+        return "%s{..}" % short(e[1]).split("::")[-1]
+    return k
 
 
 # ---------------------------------------------------------------------------------- call graph / async
@@ -755,6 +839,8 @@ def comparison(e):
         op, a, b = CMP_OPS[e[1]], e[2], e[3]
     elif e[0] == "call" and len(e[2]) == 2:
         m = re.search(r"(?:PartialOrd|PartialEq|Ord)(?:<[^>]*>)?>?::(lt|le|gt|ge|eq|ne)$", short(e[1]))
+        if not m:
+            m = re.search(r"(?:std|core)::cmp::impls::(lt|le|gt|ge|eq|ne)$", short(e[1]))
         if not m:
             m = re.search(r"cmp::(?:PartialOrd|PartialEq)(?:<.*>)?>::(lt|le|gt|ge|eq|ne)$", e[1])
         if m:
